@@ -12,7 +12,9 @@
 (* TLC then produces the shortest history that loses a PDU (known finding C17);             *)
 (* FALSE is the repaired code (fixes/C17-no-nesn-toggle-on-mic-failure.diff).               *)
 (* Deliberate deviations: ring capacities are PDU counts (RxCap, TxCap), not bytes; the     *)
-(* more-data flag is not modelled; LLID 0 is not sent.                                      *)
+(* more-data flag is not modelled. The central also sends the reserved LLID 0 (with and    *)
+(* without payload): received() acknowledges and counts such a PDU but does not store it    *)
+(* (ghost `dropped`), acknowledge(pdu) ignores it completely.                               *)
 EXTENDS Naturals, Sequences
 
 CONSTANTS MaxC, MaxP, RxCap, TxCap,
@@ -23,20 +25,24 @@ CONSTANTS MaxC, MaxP, RxCap, TxCap,
 VARIABLES cSn, cNesn, cCur, cData, cAcked, cGot,      \* central, as in LLData
           b,                                          \* the buffer object (record of its members + counters)
           committed, delivered,                       \* ghost: what the upper layer committed / was handed
+          dropped,                                    \* ghost: reserved-LLID PDUs with payload that were acknowledged, not stored
           air
 
 cvars == <<cSn, cNesn, cCur, cData, cAcked, cGot>>
-vars  == <<cvars, b, committed, delivered, air>>
+vars  == <<cvars, b, committed, delivered, dropped, air>>
 
 Empty     == [id |-> 0, len |-> 0, llid |-> 1]
 IsData(p) == p.id # 0
 Flip(x)   == 1 - x
 MkPdu(k)  == [id |-> k, len |-> k, llid |-> 2]
+Empty0    == [id |-> 0, len |-> 0, llid |-> 0]
+MkPdu0(k) == [id |-> k, len |-> k, llid |-> 0]
+Rsv(p)    == p.llid = 0
 
 Init ==
     /\ cSn = 0 /\ cNesn = 0 /\ cCur = <<>> /\ cData = <<>> /\ cAcked = 0 /\ cGot = <<>>
     /\ b = [seq |-> 0, nesn |-> 0, nextEmpty |-> FALSE, emptySn |-> 0, txq |-> <<>>, rxq |-> <<>>, rxCtr |-> 0, txCtr |-> 0]
-    /\ committed = <<>> /\ delivered = <<>> /\ air = <<>>
+    /\ committed = <<>> /\ delivered = <<>> /\ dropped = <<>> /\ air = <<>>
 
 \* ---- member functions (pure: state record in, state record out) -------------------------
 AckBool(s, n) ==                                                   \* acknowledge( bool nesn )
@@ -56,10 +62,13 @@ Received(s, c) ==                                                  \* received( 
     LET s1 == AckBool(s, c.nesn) IN
     IF c.sn = s1.nesn
     THEN LET s2 == [s1 EXCEPT !.nesn = Flip(@)] IN
-         IF c.pdu.len # 0 THEN [s2 EXCEPT !.rxq = Append(@, c.pdu), !.rxCtr = @ + 1] ELSE s2
+         IF c.pdu.len # 0
+         THEN [s2 EXCEPT !.rxq = IF c.pdu.llid # 0 THEN Append(@, c.pdu) ELSE @, !.rxCtr = @ + 1]
+         ELSE s2
     ELSE s1
 
 AckPdu(s, c) ==                                                    \* acknowledge( pdu ): CRC ok, MIC failed
+    IF c.pdu.llid = 0 THEN s ELSE
     LET s1 == AckBool(s, c.nesn) IN
     IF MicTogglesNesn /\ c.sn = s1.nesn THEN [s1 EXCEPT !.nesn = Flip(@)] ELSE s1
 
@@ -70,18 +79,19 @@ Commit ==
     /\ LET p == MkPdu(Len(committed) + 1) IN
        /\ committed' = Append(committed, p)
        /\ b' = [b EXCEPT !.txq = Append(@, [sn |-> b.seq, pdu |-> p]), !.seq = Flip(@)]
-    /\ UNCHANGED <<cvars, delivered, air>>
+    /\ UNCHANGED <<cvars, delivered, dropped, air>>
 
 Read ==
     /\ b.rxq # <<>>
     /\ delivered' = Append(delivered, Head(b.rxq))
     /\ b' = [b EXCEPT !.rxq = Tail(@)]
-    /\ UNCHANGED <<cvars, committed, air>>
+    /\ UNCHANGED <<cvars, committed, dropped, air>>
 
 \* ---- one connection event ---------------------------------------------------------------
 Exchange(p, out) ==
     /\ air = <<>>
-    /\ IF cCur # <<>> THEN p = cCur[1] ELSE (p = Empty \/ (p = MkPdu(Len(cData) + 1) /\ Len(cData) < MaxC))
+    /\ IF cCur # <<>> THEN p = cCur[1]
+       ELSE (p \in {Empty, Empty0} \/ (p \in {MkPdu(Len(cData) + 1), MkPdu0(Len(cData) + 1)} /\ Len(cData) < MaxC))
     /\ out = "mic" => /\ IsData(p)
                       /\ MicOn # "none"
                       /\ MicOn = "retx" => (cCur # <<>> /\ cSn # b.nesn)
@@ -94,8 +104,9 @@ Exchange(p, out) ==
                    [] OTHER       -> b                         \* crc / nobuf: only next_transmit()
            t  == NextTransmit(s1)
        IN  IF out = "lost"
-           THEN UNCHANGED <<b, air>>
+           THEN UNCHANGED <<b, dropped, air>>
            ELSE /\ b' = t.st
+                /\ dropped' = IF s1.rxCtr # b.rxCtr /\ s1.rxq = b.rxq THEN Append(dropped, p) ELSE dropped
                 /\ air' = <<[sn |-> t.sn, nesn |-> t.st.nesn, pdu |-> t.pdu]>>
     /\ UNCHANGED <<cSn, cNesn, cAcked, cGot, committed, delivered>>
 
@@ -110,23 +121,29 @@ CentralRx(pout) ==
            /\ cNesn'  = IF newd THEN Flip(cNesn) ELSE cNesn
            /\ cGot'   = IF newd /\ IsData(r.pdu) THEN Append(cGot, r.pdu) ELSE cGot
     /\ air' = <<>>
-    /\ UNCHANGED <<cData, b, committed, delivered>>
+    /\ UNCHANGED <<cData, b, committed, delivered, dropped>>
 
 Next ==
     \/ Commit
     \/ Read
-    \/ \E p \in {Empty} \cup {MkPdu(k) : k \in 1..MaxC}, out \in {"lost", "crc", "nobuf", "mic", "ok"} : Exchange(p, out)
+    \/ \E p \in {Empty, Empty0} \cup {MkPdu(k) : k \in 1..MaxC} \cup {MkPdu0(k) : k \in 1..MaxC}, out \in {"lost", "crc", "nobuf", "mic", "ok"} : Exchange(p, out)
     \/ \E pout \in {"lost", "ok", "nak"} : CentralRx(pout)
 
 Spec == Init /\ [][Next]_vars
 
 \* ---- the invariants of LLData, on the implementation's state ------------------------------
 Accepted == delivered \o b.rxq
-DeliveredPrefix     == Accepted = SubSeq(cData, 1, Len(Accepted))
-AckOnlyAfterReceipt == cAcked <= Len(Accepted)
+NTaken   == Len(Accepted) + Len(dropped)
+InSeq(p, s) == \E i \in 1..Len(s) : s[i] = p
+DeliveredPrefix     == /\ NTaken <= Len(cData)
+                       /\ \A i \in 1..Len(dropped) : Rsv(dropped[i])
+                       /\ LET log == SubSeq(cData, 1, NTaken) IN
+                          /\ SelectSeq(log, LAMBDA p : InSeq(p, dropped))  = dropped
+                          /\ SelectSeq(log, LAMBDA p : ~InSeq(p, dropped)) = Accepted
+AckOnlyAfterReceipt == cAcked <= NTaken
 CentralGotPrefix    == cGot = SubSeq(committed, 1, Len(cGot))
 DeliveredAfterAck   == b.txCtr <= Len(cGot)
-RxCounterInStep     == b.rxCtr = Len(Accepted)
+RxCounterInStep     == b.rxCtr = NTaken
 TxCounterInStep     == /\ b.txCtr + Len(b.txq) = Len(committed)
                        /\ \A i \in 1..Len(b.txq) : b.txq[i].pdu = committed[b.txCtr + i]
 SnAlternates        == \A i \in 1..(Len(b.txq) - 1) : b.txq[i].sn # b.txq[i + 1].sn
